@@ -339,6 +339,21 @@ Qed.
 Lemma existsb_in k comps : existsb (text_eqb k) comps = true -> In k comps.
 Proof. intro H. apply existsb_exists in H as (x & Hx & E). apply text_eqb_eq in E. subst. exact Hx. Qed.
 
+Lemma get_slice_00 (b : text) : get_slice b 0 (Some 0%Z) = [].
+Proof.
+  unfold get_slice. destruct ((0 <? len b)%Z && (0 <=? len b)%Z); [|reflexivity].
+  unfold py_slice, norm_idx. cbn [Z.ltb Z.compare]. replace (Z.min 0 (len b)) with 0%Z by (unfold len; lia). reflexivity.
+Qed.
+
+Lemma py_slice_to_0 (s : text) : py_slice_to s 0 = [].
+Proof.
+  unfold py_slice_to, py_slice, norm_idx. change (0 <? 0)%Z with false. cbv iota.
+  replace (Z.min 0 (len s)) with 0%Z by (unfold len; lia). reflexivity.
+Qed.
+
+Lemma empty_range p : range_is_empty p = true -> p = (0, 0)%Z.
+Proof. destruct p as [a b]. unfold range_is_empty. cbn [fst snd]. rewrite andb_true_iff, !Z.eqb_eq. intros [-> ->]. reflexivity. Qed.
+
 (* ---- BBAN.from_components ------------------------------------------------------------------------------------ *)
 Section FromComponents.
 Variable e : env.
@@ -366,13 +381,14 @@ Variable r : row.
 Variable values : list (text * text).
 Hypothesis Er : find_row T cc = Some r.
 Hypothesis LAY : fc_layout_ok r = true.
-(* only bank, branch and account codes are supplied *)
-Hypothesis ONLY : forall k, text_eqb k k_bank = false -> text_eqb k k_branch = false -> text_eqb k k_account = false ->
-  get_val k values = [].
-
 Let L := r_bban_length r.
 Let rng := fc_rng components r.
 Let wd k := range_length (rng k).
+(* components other than the bank, branch and account codes are absent or fit their fields (those three are guarded
+   by the code itself) *)
+Hypothesis ONLY : forall k, In k components ->
+  text_eqb k k_bank = false -> text_eqb k k_branch = false -> text_eqb k k_account = false ->
+  (len (clean e (get_val k values)) <= wd k)%Z.
 Let G c := zfill (clean e (get_val c values)) (wd c).
 Let comps0 := fc_comps0 e components r values.
 Let comps1 := fc_comps1 components r comps0.
@@ -425,8 +441,7 @@ Lemma G_len_other c :
   In c components -> text_eqb c k_bank = false -> text_eqb c k_branch = false -> text_eqb c k_account = false ->
   len (G c) = wd c.
 Proof using All.
-  intros Hc H1 H2 H3. rewrite G_len, (ONLY c H1 H2 H3). pose proof (wd_nonneg c Hc).
-  change (clean e []) with (@nil N). change (len []) with 0%Z. lia.
+  intros Hc H1 H2 H3. rewrite G_len. pose proof (ONLY c Hc H1 H2 H3). lia.
 Qed.
 
 (* the value each component has when the guards have passed *)
@@ -575,21 +590,6 @@ Proof using All.
     destruct (Hitem _ Hin) as [_ Hv]. cbn [fst snd] in Hv. rewrite <- Hv. exact Hin.
 Qed.
 
-Lemma get_slice_00 (b : text) : get_slice b 0 (Some 0%Z) = [].
-Proof.
-  unfold get_slice. destruct ((0 <? len b)%Z && (0 <=? len b)%Z); [|reflexivity].
-  unfold py_slice, norm_idx. cbn [Z.ltb Z.compare]. replace (Z.min 0 (len b)) with 0%Z by (unfold len; lia). reflexivity.
-Qed.
-
-Lemma py_slice_to_0 (s : text) : py_slice_to s 0 = [].
-Proof.
-  unfold py_slice_to, py_slice, norm_idx. change (0 <? 0)%Z with false. cbv iota.
-  replace (Z.min 0 (len s)) with 0%Z by (unfold len; lia). reflexivity.
-Qed.
-
-Lemma empty_range p : range_is_empty p = true -> p = (0, 0)%Z.
-Proof. destruct p as [a b]. unfold range_is_empty. cbn [fst snd]. rewrite andb_true_iff, !Z.eqb_eq. intros [-> ->]. reflexivity. Qed.
-
 (* a value supplied under one of the three code names sits, cleaned and zero-padded to the field width, at the
    published position (no bank code of combined width) *)
 Theorem fc_placed b k :
@@ -658,6 +658,33 @@ Proof using All.
     rewrite get_slice_00. destruct (G k_account); [reflexivity|]. unfold len in Hla. cbn [List.length] in Hla. lia.
   - destruct (Hget _ Hac Ee) as [Hg _]. rewrite Hg, V2_eq, Nan, (V1_split _ Hs Hac).
     rewrite (text_eqb_sym k_account k_bank), Nba, (text_eqb_sym k_account k_branch), Nra. destruct K; reflexivity.
+Qed.
+
+(* the placed check digits are what the country's algorithm computes from the placed components: so the default
+   validation (compute and compare) accepts what from_components builds *)
+Theorem fc_checksum_agrees b al :
+  from_components e components T find_algo cc values = Ok b ->
+  (forall K, compute_national find_algo cc comps1 = Ok K -> shape_ok K) ->
+  find_algo cc k_default = Some al ->
+  (forall k, In k (al_accepts al) -> In k components /\ text_eqb k k_national = false) ->
+  let comp k := get_slice b (fst (rng k)) (Some (snd (rng k))) in
+  exists K, al_compute al (map comp (al_accepts al)) = Ok K /\
+    (K <> [] -> range_is_empty (rng k_national) = false -> comp k_national = K).
+Proof using All.
+  intros H HK Hal Hacc comp.
+  destruct (fc_result b H HK) as (K & EK & _ & _ & Hlen & Hget). exists K.
+  destruct lay_facts as (_ & _ & _ & _ & _ & _ & _ & Hn & _).
+  assert (Hcomp : forall k, In k components -> text_eqb k k_national = false -> comp k = V1 k).
+  { intros k Hk Hnn. unfold comp. destruct (range_is_empty (rng k)) eqn:Ee.
+    - pose proof (Hlen k Hk) as Hl. pose proof (empty_range _ Ee) as Ep. unfold wd, range_length in Hl.
+      rewrite Ep in *. cbn [fst snd] in *. rewrite get_slice_00. destruct (V1 k); [reflexivity|].
+      unfold len in Hl. cbn [List.length] in Hl. lia.
+    - destruct (Hget k Hk Ee) as [Hg _]. rewrite Hg, V2_eq, Hnn. destruct K; reflexivity. }
+  split.
+  - unfold compute_national in EK. rewrite Hal in EK. rewrite <- EK. f_equal.
+    apply map_ext_in. intros k Hk. destruct (Hacc k Hk) as [Hc Hnn]. rewrite (Hcomp k Hc Hnn). reflexivity.
+  - intros HK0 Hne. unfold comp. destruct (Hget _ Hn Hne) as [Hg _]. rewrite Hg, V2_eq, text_eqb_refl.
+    destruct K; [congruence|reflexivity].
 Qed.
 
 (* ---- the error class of an over-long component ------------------------------------------------------------- *)
